@@ -10,6 +10,12 @@ theorem take_length_lt_iff {α : Type} (l : List α) (k : Nat) :
     ((l.take k).length < k) = (l.length < k) := by
   simp only [List.length_take, eq_iff_iff]; omega
 
+theorem take_app {α : Type} (a b : List α) (k : Nat) (h : a.length = k) : (a ++ b).take k = a := by
+  subst h; simp
+
+theorem drop_app {α : Type} (a b : List α) (k : Nat) (h : a.length = k) : (a ++ b).drop k = b := by
+  subst h; simp
+
 @[simp] theorem be_length : ∀ k n, (be k n).length = k
   | 0, _ => rfl
   | k + 1, n => by simp [be, be_length k n]
